@@ -86,12 +86,12 @@ static int cmp_key(void const *ctx, void const *b)
 enum
 {
     L_RM_LEAF, L_RM_ONE, L_RM_TWO_SUCC_RIGHT, L_RM_TWO_SUCC_DEEP, L_DUP, L_ROOT_CHANGED, L_SIZE16, L_SIZE64,
-    L_INS_AFTER_RM, L_RM_BLACK, L_BATTERY, L_TEAR_INTERRUPT, L_TEAR_RESTART, L_EMPTIED, L_LEFT_ONLY, L_RIGHT_ONLY, L_RM_ROOT, L_MANUAL_INSERT, L_TEAR_START_NODE, L_CMP_MAGNITUDE
+    L_INS_AFTER_RM, L_RM_BLACK, L_BATTERY, L_TEAR_INTERRUPT, L_TEAR_RESTART, L_EMPTIED, L_LEFT_ONLY, L_RIGHT_ONLY, L_RM_ROOT, L_MANUAL_INSERT, L_TEAR_START_NODE, L_CMP_MAGNITUDE, L_TALL
 };
 static char const *const labels[] = {"remove_leaf", "remove_one_child", "remove_two_children_successor_is_right_child",
                                      "remove_two_children_deeper_successor", "duplicate_insert", "root_changed", "size_ge_16", "size_ge_64",
                                      "insert_after_remove", "rbt_removed_black_node", "iterator_battery_on_ge5_nodes", "tear_interrupted_midway",
-                                     "tear_restarted_from_null", "tree_emptied_and_refilled", "has_left_only_node", "has_right_only_node", "remove_root", "manual_link_plus_insert_adjust", "tear_started_at_arbitrary_node", "comparator_returns_magnitudes_not_just_signs", nullptr};
+                                     "tear_restarted_from_null", "tree_emptied_and_refilled", "has_left_only_node", "has_right_only_node", "remove_root", "manual_link_plus_insert_adjust", "tear_started_at_arbitrary_node", "comparator_returns_magnitudes_not_just_signs", "tall_minimal_shape_143_to_28656_nodes", nullptr};
 static char const *const metrics[] = {"max_live_nodes", "max_height", nullptr};
 static uint8_t const dict[] = {4, 5, 6, 12, 13, 20, 21};
 
@@ -525,6 +525,66 @@ static void do_search(Ctx &cx, Tree &t, int key)
     else { VP_CHECK(cx, r == &f->second->node, "search:missed_present", "%s search(%d) did not return the resident element", kName, key); }
 }
 
+#if VP_PROP != 3
+// Tall trees: the minimal-node AVL shape of a given height (Fibonacci tree, left- or right-leaning), keys in in-order, inserted
+// level by level (no rotation is needed on the way), 143 .. 28656 nodes; then a few removals at the ends, at the root and at
+// random keys, each followed by the full walk. A removal at the shallow end shrinks a subtree at every level up to the root -
+// the longest rebalancing walk a tree of that height allows. Milliseconds per case: rapidcheck processes only (VP_NO_HEAVY).
+static void tall_shape(unsigned h, int base, unsigned depth, bool mirror, std::vector<std::pair<unsigned, int>> &out, std::vector<int> const &cnt)
+{
+    if (h == 0) { return; }
+    unsigned hl = mirror ? (h >= 2 ? h - 2 : 0) : h - 1, hr = mirror ? h - 1 : (h >= 2 ? h - 2 : 0);
+    int nl = cnt[hl];
+    out.push_back({depth, base + nl});
+    tall_shape(hl, base, depth + 1, mirror, out, cnt);
+    tall_shape(hr, base + nl + 1, depth + 1, mirror, out, cnt);
+}
+static void tall_scenario(Tape &tp, Ctx &cx, Tree &t)
+{
+    static unsigned const heights[] = {10, 14, 17, 18, 19, 20};
+    unsigned h = heights[tp.u8() % 6];
+    bool mirror = tp.coin();
+    std::vector<int> cnt(h + 1, 0);
+    for (unsigned i = 1; i <= h; ++i) { cnt[i] = cnt[i - 1] + (i >= 2 ? cnt[i - 2] : 0) + 1; }
+    std::vector<std::pair<unsigned, int>> order;
+    tall_shape(h, 0, 0, mirror, order, cnt);
+    std::stable_sort(order.begin(), order.end(), [](std::pair<unsigned, int> const &a, std::pair<unsigned, int> const &b) { return a.first < b.first; });
+    cx.label(L_TALL);
+    cx.hash.add(0x7A11u | (h << 16) | (unsigned(mirror) << 24));
+    cx.log("tall tree: minimal shape of height %u (%d nodes, %s-leaning)\n", h, cnt[h], mirror ? "right" : "left");
+    for (auto const &dk : order)
+    {
+        Item *it = new_item(t, dk.second);
+        N *res = TF(insert)(&t.root, &it->node, cmp_nodes);
+        if (res != nullptr)
+        {
+            free(it);
+            cx.fail("insert:absent_key_rejected", "%s insert of absent key %d returned a node", kName, dk.second);
+        }
+        t.model[dk.second] = it;
+    }
+    check_tree(cx, t);
+    unsigned k = 1 + tp.u8() % 6;
+    for (unsigned i = 0; i < k && !t.model.empty(); ++i)
+    {
+        int key;
+        switch (tp.u8() % 5)
+        {
+        case 0: key = t.model.begin()->first; break;
+        case 1: key = t.model.rbegin()->first; break;
+        case 2: key = item(t.root.node)->key; break;
+        case 3: key = int(tp.u16() % unsigned(cnt[h])); break;
+        default: key = mirror ? t.model.begin()->first : t.model.rbegin()->first; break; // the shallow end
+        }
+        cx.hash.add(uint64_t(key));
+        ++cx.rep->subcases;
+        do_remove(cx, t, key);
+        check_tree(cx, t);
+    }
+    cx.rep->nontrivial = true;
+}
+#endif
+
 static void run_case(Tape &tp, Ctx &cx)
 {
     Tree t;
@@ -550,6 +610,16 @@ static void run_case(Tape &tp, Ctx &cx)
         ~Cleanup() { free_all(t); }
     } cleanup{t};
     (void)cleanup;
+#if VP_PROP != 3
+    {
+        static bool const no_heavy = getenv("VP_NO_HEAVY") != nullptr;
+        if ((ub >> 6) == 3 && !no_heavy && tp.u8() % 4 == 0)
+        {
+            tall_scenario(tp, cx, t);
+            return;
+        }
+    }
+#endif
     while (!tp.done() && nops < 400)
     {
         ++nops;
